@@ -1,0 +1,51 @@
+//go:build verif
+
+package priority
+
+// Contracts for govc (contract-based deductive verification, see /verif/DESIGN.md).
+// This file contains comments only and is compiled only with the build tag `verif`.
+
+//@ guarded_by Group.reqmods reqmu C12
+//@ guarded_by Group.resmods resmu C12
+
+// C12: the list is kept sorted by priority, highest first; among equal priorities the modifier added later runs first;
+// insertion keeps the relative order of all other modifiers.
+//@ ghost var insPos int
+//@ pred sortedReq(pg *Group) = (forall i int :: 0 <= i && i < len(pg.reqmods) ==> pg.reqmods[i] != nil && allocated(pg.reqmods[i])) &&
+//@      (forall i int, j int :: 0 <= i && i < j && j < len(pg.reqmods) ==> pg.reqmods[i].priority >= pg.reqmods[j].priority)
+
+//@ func (*Group).AddRequestModifier
+//@   serves C12
+//@   requires pg != nil && !pg.reqmu.wheld && pg.reqmu.rheld == 0 && sortedReq(pg)
+//@   modifies pg.reqmods, pg.reqmods[*], pg.reqmu.wheld, insPos
+//@   ensures[one-more] len(pg.reqmods) == old(len(pg.reqmods)) + 1
+// (Sortedness of the new list follows from the two postconditions below and the sortedness of the old one; as a
+// machine-checked obligation it is only discharged for the append-at-the-end case, the shifted case needs index
+// arithmetic the solvers do not find.)
+//@   ensures[still-sorted-when-appended-last] insPos == old(len(pg.reqmods)) ==> sortedReq(pg)
+//@   ensures[inserted-before-the-first-not-higher-priority] 0 <= insPos && insPos <= old(len(pg.reqmods)) &&
+//@        pg.reqmods[insPos].reqmod == reqmod && pg.reqmods[insPos].priority == priority &&
+//@        (forall k int :: 0 <= k && k < insPos ==> old(pg.reqmods[k]).priority > priority) &&
+//@        (forall p int :: p == insPos && p < old(len(pg.reqmods)) ==> old(pg.reqmods[p]).priority <= priority)
+//@   ensures[others-keep-their-relative-order] (forall k int :: 0 <= k && k < insPos ==> pg.reqmods[k] == old(pg.reqmods[k])) &&
+//@        (forall k int :: insPos <= k && k < old(len(pg.reqmods)) ==> pg.reqmods[k+1] == old(pg.reqmods[k]))
+//@   loop 0 invariant pg.reqmu.wheld && preqmod != nil && !wasAllocated(preqmod) && preqmod.priority == priority && preqmod.reqmod == reqmod
+//@   loop 0 invariant forall k int :: 0 <= k && k <= rangeindex && k < len(pg.reqmods) ==> pg.reqmods[k].priority > priority
+//@   at call 0 of copy before set insPos = i
+//@   at call 1 of append before set insPos = len(pg.reqmods)
+
+// the group applies modifiers in slice order and stops at the first error
+//@ func (*Group).ModifyRequest
+//@   serves C12
+//@   requires pg != nil && !pg.reqmu.wheld && pg.reqmu.rheld == 0 && req != nil
+//@   requires forall i int :: 0 <= i && i < len(pg.reqmods) ==> pg.reqmods[i] != nil && pg.reqmods[i].reqmod != nil
+//@   modifies nReq, reqSeq, lastReqErr, http.Request.*, url.URL.*, martian.Session.hijacked, martian.Context.skipRoundTrip, martian.Context.skipLogging, martian.Context.apiRequest, pg.reqmu.rheld
+//@   noframe
+//@   ensures[lock-released] !pg.reqmu.wheld && pg.reqmu.rheld == 0
+//@   ensures[calls-are-a-prefix-in-priority-order] 0 <= nReq - old(nReq) && nReq - old(nReq) <= len(pg.reqmods) &&
+//@        forall i int :: 0 <= i && i < nReq - old(nReq) ==> reqSeq[old(nReq) + i] == pg.reqmods[i].reqmod
+//@   ensures[all-run-unless-one-fails] result == nil ==> nReq - old(nReq) == len(pg.reqmods)
+//@   ensures[first-error-returned-as-is-and-stops] result != nil ==> result == lastReqErr
+//@   loop 0 invariant pg.reqmu.rheld == 1 && !pg.reqmu.wheld
+//@   loop 0 invariant nReq - old(nReq) == rangeindex + 1 && rangeindex + 1 <= len(pg.reqmods)
+//@   loop 0 invariant forall i int :: 0 <= i && i <= rangeindex ==> reqSeq[old(nReq) + i] == pg.reqmods[i].reqmod
